@@ -1,6 +1,7 @@
 From Coq Require Import List NArith Bool.
 From V.C10 Require Import Model.
 From V.Mgr Require Import DialShape DialShapeProofs Model Caps Ledger LedgerInv.
+From V.Mgr Require LiveRec.
 From V.Tcp Require Model Proofs Theorems Variants VariantTheorems Once Settle.
 From V.C05 Require TcpCompose TrCompose.
 From V.C05 Require TwoCompose TwoEvents TwoCmd TwoTheorems.
@@ -184,6 +185,19 @@ Check (C05_stuck_only_on_inconsistent_ids :
   (exists c t f, e = TrOpened c t f /\ lookup c (pending m) = None) \/
   (exists p c t l f q, e = TrEstablished p c t l f /\ lookup c (pending m) = Some q /\ q <> p) \/
   (exists p c ts t, state_of m p = Opening c ts /\ In t ts /\ installed L t = false)).
+Check (C05_recorded_is_live_step :
+  forall L m l e, Caps.CapInv L m l -> LiveRec.RecInv m l -> Caps.env_ok m l e ->
+  LiveRec.RecInv (fst (step L m e)) (Caps.live_step e (snd (step L m e)) l)).
+Check (C05_no_dead_connection :
+  forall L es p, Caps.env_trace L init [] es ->
+  let '(m, l) := Caps.grun L init [] es in
+  Caps.of_peer p l = [] -> can_dial (state_of m p) <> GateConnected).
+Check (C05_accept_failure_not_recorded :
+  forall L m l p c t lst, Caps.CapInv L m l -> LiveRec.RecInv m l -> lookup c l = None ->
+  ~ Caps.recorded (state_of (fst (step L m (TrEstablished p c t lst true))) p) c).
+Check (C05_accept_future_failure_not_recorded :
+  forall L m l c p b, Caps.CapInv L m l -> LiveRec.RecInv m l -> lookup c (accepting m) = Some (p, b) ->
+  ~ Caps.recorded (state_of (fst (step L m (AcceptDone c false))) p) c).
 Check (C05_tcp_open_phase_owed :
   forall s g e o1 t o2,
   Tcp.Theorems.reachU s g -> snd (Tcp.Model.step s e) = o1 ++ Tcp.Model.OEv t :: o2 ->
